@@ -177,8 +177,8 @@ class Expected:
             self.rate_partition = [float(v) for v in value]
         elif par == "mprobs":
             self.pi = dict(value)
-        elif par.endswith("_factor_partition"):
-            self.factor_partition[par[:-len("_factor_partition")]] = [float(v) for v in value]
+        elif par.endswith("_factor_partition") or par.endswith("_factor_partn_partition"):
+            self.factor_partition[par.split("_factor_")[0]] = [float(v) for v in value]
         else:
             assert par in self.pnames, par
             bins = [scope["bin"]] if "bin" in scope else (list(scope["bins"]) if "bins" in scope else self.bins)
@@ -285,7 +285,7 @@ def apply_rule(lf, rule):
     kw = {k: v for k, v in scope.items() if k != "independent"}
     if "independent" in scope:
         kw["is_independent"] = scope["independent"]
-    if par in ("bprobs", "rate_partition") or par.endswith("_factor_partition"):
+    if par == "bprobs" or par.endswith("_partition"):
         lf.set_param_rule(par, init=numpy.array(value, float), **kw)
     elif par == "mprobs":
         lf.set_motif_probs(dict(value))
@@ -714,6 +714,14 @@ def gen_scoped(tier, seed):
                 if stem is not None:
                     sc["stem"] = stem
                 scopes.append(sc)
+            for o in tips:          # the same tip pair read on the unrooted tree, away from an outgroup tip
+                if o in (a, b):
+                    continue
+                for clade, stem in ((True, False), (False, True), (True, True)):
+                    _, ambiguous = S.scope_edges_outgroup(S.parse_newick(tr), a, b, o, clade=clade, stem=stem)
+                    if ambiguous:
+                        continue
+                    scopes.append({"tip_names": [a, b], "outgroup_name": o, "clade": clade, "stem": stem})
         for model, par in (("HKY85", "kappa"), ("GTR", "A/G"), ("GN", "C>T"), ("TN93", "kappa_r"), ("ssGN", SSGN_P[3])):
             for sc in scopes:
                 i += 1
@@ -769,6 +777,11 @@ def gen_bins(tier, seed):
                 if MODELS[model][3]:
                     configs.append(("perbin", None, None))
                     configs.append(("perbin", None, bps[1]))
+                    part = [round(p_ / sum([0.15, 0.2, 0.3, 0.35][:nb]), 6) for p_ in [0.15, 0.2, 0.3, 0.35][:nb]]
+                    part[-1] = round(1 - sum(part[:-1]), 6)
+                    for bp in bps:
+                        configs.append(("ordered", part, bp))
+                        configs.append(("partitioned", part[::-1], bp))
                 for kind, arg, bp in configs:
                     i += 1
                     if not thorough and i % 2 and model not in ("HKY85",):
@@ -785,6 +798,12 @@ def gen_bins(tier, seed):
                     elif kind == "free":
                         case["mkw"] = {"ordered_param": "rate", "distribution": "free"}
                         rules.append(["rate_partition", {}, arg])
+                    elif kind in ("ordered", "partitioned"):
+                        p0 = MODELS[model][3][0]
+                        case["mkw"] = {"ordered_param": p0} if kind == "ordered" else {"partitioned_params": [p0]}
+                        rules.append([p0 + ("_factor_partition" if kind == "ordered" else "_factor_partn_partition"),
+                                      {}, arg])
+                        rules.append([p0, {"edge": "a"}, 6.0])
                     else:
                         p0 = MODELS[model][3][0]
                         for b in range(nb):
